@@ -12,6 +12,7 @@ use crate::hir;
 use crate::lift::{self, GlobalLiftEnv, LiftFile};
 use crate::mono::{self, GlobalMonoEnv};
 use crate::pipeline::compile_error;
+use crate::pipeline::packages::{PackageGraph, PackageUnit, topo_sort_packages};
 use crate::pipeline::pipeline::{CompilationError, parse_ast_file};
 
 pub struct PackageInputs {
@@ -387,56 +388,32 @@ pub fn link_cores(cores: Vec<CoreUnit>) -> Result<LinkOutput, CompilationError> 
 }
 
 fn topo_sort(cores: &HashMap<String, CoreUnit>) -> Result<Vec<String>, CompilationError> {
-    use std::collections::BTreeSet;
-
-    let mut indeg: BTreeMap<String, usize> = BTreeMap::new();
-    let mut edges: BTreeMap<String, Vec<String>> = BTreeMap::new();
-
-    for name in cores.keys() {
-        indeg.entry(name.clone()).or_insert(0);
-        edges.entry(name.clone()).or_default();
-    }
-
-    let mut names: Vec<String> = cores.keys().cloned().collect();
-    names.sort();
-    for name in names {
-        let unit = cores
-            .get(&name)
-            .ok_or_else(|| compile_error(format!("missing core for package {}", name)))?;
-        for dep in unit.deps.keys() {
-            if !cores.contains_key(dep) {
-                continue;
-            }
-            edges.entry(dep.clone()).or_default().push(name.clone());
-            *indeg.entry(name.clone()).or_insert(0) += 1;
-        }
-    }
-
-    let mut queue: BTreeSet<String> = indeg
+    // Whole-program compilation and `link` must hand the packages to the back end in the
+    // same order (two topological sorts only agree on dependent packages), so describe the
+    // cores as a package graph and use the ordering of the whole-program pipeline.
+    let packages = cores
         .iter()
-        .filter_map(|(k, &v)| (v == 0).then_some(k.clone()))
+        .map(|(name, unit)| {
+            let imports = unit
+                .deps
+                .keys()
+                .filter(|dep| cores.contains_key(*dep))
+                .cloned()
+                .collect();
+            let package = PackageUnit {
+                name: name.clone(),
+                files: Vec::new(),
+                imports,
+            };
+            (name.clone(), package)
+        })
         .collect();
-
-    let mut out = Vec::new();
-    while let Some(n) = queue.pop_first() {
-        out.push(n.clone());
-        if let Some(nexts) = edges.get(&n) {
-            for next in nexts {
-                if let Some(v) = indeg.get_mut(next) {
-                    *v -= 1;
-                    if *v == 0 {
-                        queue.insert(next.clone());
-                    }
-                }
-            }
-        }
-    }
-
-    if out.len() != cores.len() {
-        return Err(compile_error(
-            "package dependency cycle detected in core inputs".to_string(),
-        ));
-    }
-
-    Ok(out)
+    let graph = PackageGraph {
+        root_dir: PathBuf::new(),
+        entry_package: String::new(),
+        packages,
+        discovery_order: Vec::new(),
+        package_dirs: HashMap::new(),
+    };
+    topo_sort_packages(&graph)
 }
